@@ -263,3 +263,22 @@ Proof.
   eexists. eexists. split; [reflexivity|]. split; [vm_compute; reflexivity|].
   split; [vm_compute; reflexivity|]. vm_compute. discriminate.
 Qed.
+
+(* C45 (call-graph argument only): the model's dry run is a function of the view and the
+   request and has no storage output *)
+Lemma dry_run_function_all : forall P hdr c txs st1 st2,
+  st1 = st2 -> dry_run P hdr c txs st1 = dry_run P hdr c txs st2.
+Proof. intros. subst. reflexivity. Qed.
+
+(* non-vacuity: a block with one executed script (coin spent, change created) and its mint
+   is produced and then accepted by validation *)
+Definition nv_st := mkSt [((100, 0), ex_coinA)] [] [] [] [].
+Definition nv_tx := mkTx 7 false [InCoin (100, 0) 5 100 0] [OutChange 5 0 0] 50 1000 200 0 0 0 0 true.
+Definition nv_att := mkAtt nv_tx false u32max true true true
+                           (Some (mkVmOut false [OutChange 5 90 0] 51 [] 0 (Some (10, 10)))) 13 true.
+Example produce_validate_nonvacuous :
+  exists p v, produce_block ex_P ex_hdr (mkComp 0 1) (mkL1 false None []) [[nv_att]] ex_mint nv_st = (p, None) /\
+              clean (r_d (pr_run p)) = true /\ length (r_blk (pr_run p)) = 2%nat /\
+              validate_block ex_P ex_hdr (mkL1 false None []) (block_of_run (pr_run p)) nv_st = (v, None) /\
+              events (r_d v) = [CoinConsumed (100, 0) ex_coinA; CoinCreated (7, 0) (mkCoin 5 90 0 1 0)].
+Proof. eexists. eexists. repeat split; vm_compute; reflexivity. Qed.
